@@ -44,8 +44,10 @@ pub struct Script {
     pub injected: usize,
     pub stalled: bool,
     pub offered: Vec<usize>,
-    /// which half returned the most recent Pending: 1 = read, 2 = write
+    /// which half returned the most recent Pending: 1 = read, 2 = write (or flush)
     pub last_pending: u8,
+    /// readiness of `poll_flush`, one entry per call (`true` = not ready once); exhausted = ready
+    pub fscript: VecDeque<bool>,
 }
 
 impl Script {
@@ -248,8 +250,12 @@ impl AsyncWrite for Transport {
             },
         }
     }
-    fn poll_flush(self: Pin<&mut Self>, _cx: &mut Context<'_>) -> Poll<io::Result<()>> {
-        Poll::Ready(Ok(()))
+    fn poll_flush(self: Pin<&mut Self>, cx: &mut Context<'_>) -> Poll<io::Result<()>> {
+        let mut s = self.0.lock().unwrap();
+        match s.fscript.pop_front() {
+            Some(true) => { s.last_pending = 2; cx.waker().wake_by_ref(); Poll::Pending },
+            _ => Poll::Ready(Ok(())),
+        }
     }
     fn poll_shutdown(self: Pin<&mut Self>, _cx: &mut Context<'_>) -> Poll<io::Result<()>> {
         Poll::Ready(Ok(()))
